@@ -16,6 +16,11 @@ from . import pysym
 from .pysym import E
 
 
+class KernelFault(Exception):
+    """the kernel would touch memory outside a Python buffer: the run ends
+    here (the violation has been recorded)"""
+
+
 class Addr:
     def __init__(self, buf):
         self.buf = buf
@@ -80,11 +85,14 @@ class Kernel:
                 E.fail(f"{op}: the {what} buffer has {have} bytes, the "
                        f"kernel accesses {n} ({m['kind']} map, key size "
                        f"{m['key_size']}, value size {m['value_size']})")
+                raise KernelFault()
             else:
                 E.prove(True, f"{op}: {what} buffer large enough")
         else:
             E.prove(ok, f"{op}: the {what} buffer is at least {n} bytes")
-        return isinstance(addr, Addr) and bool(blen(addr.buf) >= n)
+        if not (isinstance(addr, Addr) and bool(blen(addr.buf) >= n)):
+            raise KernelFault()
+        return True
 
     def find(self, m, key):
         for i, (k, v) in enumerate(m["entries"]):
